@@ -25,6 +25,13 @@ def gen_config(rng):
     return svcs, rules
 
 
+def recase(rng, name):
+    """Another spelling of the same (case-insensitive) key."""
+    cands = [name.upper(), name.lower(), name.swapcase(), name.capitalize()]
+    cands = [c for c in cands if c != name]
+    return rng.choice(cands) if cands else name
+
+
 def edit(rng, svcs, rules):
     """Returns (new svcs, new rules, [edit kinds])."""
     svcs = list(svcs)
@@ -32,7 +39,7 @@ def edit(rng, svcs, rules):
     kinds = []
     for _ in range(rng.choice([1, 1, 1, 2, 3])):
         k = rng.choice(["svc-add", "svc-remove", "svc-change", "rule-add", "rule-remove", "rule-class", "crit-add", "crit-remove", "crit-change", "rule-rename",
-                        "svc-change", "crit-change", "rule-class"])
+                        "svc-change", "crit-change", "rule-class", "svc-recase", "rule-recase"])
         if k == "svc-add":
             free = [n for n in SVC_NAMES if n not in [x[0] for x in svcs]]
             if not free:
@@ -84,6 +91,18 @@ def edit(rng, svcs, rules):
             r, key = rng.choice(cands)
             pool = {"account": c11.ACCT_PATS, "address": c11.ADDR_PATS, "username": c11.USER_PATS, "hostname": c11.HOST_PATS}[key]
             r[key] = rng.choice([x for x in pool if x != r[key]])
+        elif k == "svc-recase":
+            # the name is data on the wire (X <service> ...): a case-only change is an in-place edit
+            if not svcs:
+                continue
+            i = rng.randrange(len(svcs))
+            svcs[i] = (recase(rng, svcs[i][0]), svcs[i][1])
+        elif k == "rule-recase":
+            # a rule without a class value gives its own name as the class
+            if not rules:
+                continue
+            r = rng.choice(rules)
+            r["name"] = recase(rng, r["name"])
         elif k == "rule-rename":
             if not rules:
                 continue
@@ -97,7 +116,7 @@ def edit(rng, svcs, rules):
 
 
 DIRECTED = ["crit-add-then-change", "rule-add-then-change", "svc-add-then-change", "svc-remove-then-add", "svc-remove-all-then-add", "svc-change-and-back", "svc-readd-same", "rule-rename-and-back", "rule-remove-then-add",
-            "crit-remove-then-add", "svc-swap-names"]
+            "crit-remove-then-add", "svc-swap-names", "svc-recase-xreply", "rule-recase-and-back"]
 
 
 def directed_chain(rng, kind, svcs, rules):
@@ -126,7 +145,20 @@ def directed_chain(rng, kind, svcs, rules):
     if kind == "svc-swap-names":
         steps = [[(a, pa), (b, pb)], [(a, pb), (b, pa)], [(b, pa), (c, pb)]]
         return [(s, r0, [kind] if i else []) for i, s in enumerate(steps)]
+    if kind == "svc-recase-xreply":
+        # a service is re-spelled while earlier clients still wait on the old spelling, and a rule asks whether it said OK
+        rr = [{"name": "aa0", "xreply_ok": a, "class": "vouched"}] + [r for r in copy.deepcopy(r0) if r["name"].lower() != "aa0"]
+        pl = rng.choice(["login", "combined", "login-ipr"]) if set(["login", "combined", "login-ipr"]) <= set(proto.PROTOS) else pa
+        a2 = recase(rng, a)
+        a3 = recase(rng, a2)
+        return [([(a, pl), (b, pb)], rr, []), ([(a2, pl), (b, pb)], rr, [kind]), ([(a3, pl), (b, pb)], rr, [kind])]
     sv = [(a, pa), (b, pb)]
+    if kind == "rule-recase-and-back":
+        r1 = copy.deepcopy(r0)
+        r1[0].pop("class", None)
+        base = copy.deepcopy(r1)
+        r1[0]["name"] = recase(rng, r1[0]["name"])
+        return [(sv, base, []), (sv, r1, [kind]), (sv, copy.deepcopy(base), [kind])]
     if kind == "svc-add-then-change":
         pc2 = rng.choice([p for p in proto.PROTOS if p != pc])
         steps = [sv, sv + [(c, pc)], sv + [(c, pc2)]]
@@ -230,7 +262,8 @@ def _worker(a):
     sb = None
     try:
         pre = random.Random(seed ^ 0x5bd1e995)
-        for k in range(a["npre"]):
+        npre = max(a["npre"], 3) if a.get("directed") == "svc-recase-xreply" else a["npre"]
+        for k in range(npre):
             cid = 900 + k
             how = pre.random()
             if how < 0.6:
